@@ -302,98 +302,6 @@ pub mod z {
 }
 
 #[cfg(kani)]
-pub mod zh {
-    //! thorough tier: hash chains much longer than any sample's
-    use super::z::*;
-    use elf::endian::AnyEndian;
-    use elf::file::Class;
-    use elf::hash::{GnuHashTable, SysVHashTable};
-    use elf::parse::ParsingTable;
-    use elf::string_table::StringTable;
-    use elf::symbol::SymbolTable;
-
-    const LONG: usize = 72;
-    const fn cw32(mut buf: [u8; 12 + 4 * LONG], pos: usize, v: u32) -> [u8; 12 + 4 * LONG] {
-        let b = v.to_le_bytes();
-        buf[pos] = b[0];
-        buf[pos + 1] = b[1];
-        buf[pos + 2] = b[2];
-        buf[pos + 3] = b[3];
-        buf
-    }
-    /// SysV: one bucket -> 1 -> 2 -> ... -> 71 -> (0 | 1)
-    const fn long_sysv(cyclic: bool) -> [u8; 12 + 4 * LONG] {
-        let mut tab = [0u8; 12 + 4 * LONG];
-        tab = cw32(tab, 0, 1);
-        tab = cw32(tab, 4, LONG as u32);
-        tab = cw32(tab, 8, 1);
-        let mut i = 1;
-        while i < LONG - 1 {
-            tab = cw32(tab, 12 + 4 * i, (i + 1) as u32);
-            i += 1;
-        }
-        if cyclic {
-            tab = cw32(tab, 12 + 4 * (LONG - 1), 1);
-        }
-        tab
-    }
-    /// GNU: one bucket, symoffset 1, all-ones bloom word, 67 chain words without stop bit that never match, stop bit on the 68th
-    const fn long_gnu() -> [u8; 12 + 4 * LONG] {
-        let mut g = [0u8; 12 + 4 * LONG];
-        g = cw32(g, 0, 1);
-        g = cw32(g, 4, 1);
-        g = cw32(g, 8, 1);
-        g = cw32(g, 12, 0);
-        g = cw32(g, 16, 0xffff_ffff);
-        g = cw32(g, 20, 1);
-        let mut i = 0;
-        while i < LONG - 4 {
-            g = cw32(g, 24 + 4 * i, if i + 5 < LONG { 2 } else { 3 });
-            i += 1;
-        }
-        g
-    }
-    /// 72 ELF32 symbols, all named "" (offset 0) except the last one ("zz" at offset 1)
-    const fn long_syms() -> [u8; 16 * LONG] {
-        let mut s = [0u8; 16 * LONG];
-        s[16 * (LONG - 1)] = 1;
-        s
-    }
-    static SYSV_OPEN: [u8; 12 + 4 * LONG] = long_sysv(false);
-    static SYSV_CYCLE: [u8; 12 + 4 * LONG] = long_sysv(true);
-    static GNU_LONG: [u8; 12 + 4 * LONG] = long_gnu();
-    static SYMS_LONG: [u8; 16 * LONG] = long_syms();
-    static STRS_LONG: [u8; 4] = [0, b'z', b'z', 0];
-
-    /// hash chains much longer than any sample's (71 links; open and closed into a cycle): constant tables and queries, so the
-    /// walk itself is decided by constant propagation and only the reachability of an allocator entry point is left to the
-    /// solver. A lookup that starts to allocate once a walk gets long (visited-set, collected candidates) is reached here.
-    #[kani::proof]
-    #[kani::stub(std::alloc::alloc, no_alloc)]
-    #[kani::stub(std::alloc::alloc_zeroed, no_alloc)]
-    #[kani::stub(std::alloc::realloc, no_realloc)]
-    #[kani::unwind(75)]
-    pub fn hash_long_chain_no_alloc() {
-        let e = AnyEndian::Little;
-        let symtab: SymbolTable<'_, AnyEndian> = ParsingTable::new(e, Class::ELF32, &SYMS_LONG);
-        let strtab = StringTable::new(&STRS_LONG);
-        let t = SysVHashTable::new(e, Class::ELF32, &SYSV_OPEN).unwrap();
-        let r = t.find(b"zz", &symtab, &strtab);
-        assert!(matches!(r, Ok(Some((71, _)))));
-        let r = t.find(b"qq", &symtab, &strtab);
-        assert!(matches!(r, Ok(None)));
-        let t = SysVHashTable::new(e, Class::ELF32, &SYSV_CYCLE).unwrap();
-        let r = t.find(b"qq", &symtab, &strtab);
-        assert!(matches!(r, Ok(None)));
-        let t = GnuHashTable::new(e, Class::ELF32, &GNU_LONG[..24 + 4 * (LONG - 4)]).unwrap();
-        let r = t.find(b"qq", &symtab, &strtab);
-        assert!(matches!(r, Ok(None)));
-        kani::cover!(true, "all four long walks completed");
-    }
-
-}
-
-#[cfg(kani)]
 pub mod zn {
     //! by-name lookup on a file whose section names include non-UTF-8 bytes, duplicates and prefixes (symbolic query)
     use super::z::*;
